@@ -1,12 +1,14 @@
 #!/bin/sh
-# usage: seedverify.sh <ID>  — in /tmp/wt/<ID> (change + demo applied): checks the three claims
-id="$1"; wt=/tmp/wt/$id; out=/tmp/wt/$id-out
-export CARGO_NET_OFFLINE=true CARGO_TARGET_DIR=/tmp/wt/target-$id
+# usage: seedverify.sh <ID> [base]  — in <base>/wt (change + demo applied; default base /tmp/seed-<ID>): checks the three claims
+id="$1"; base="${2:-/tmp/seed-$id}"; wt=$base/wt; out=$base/out
+[ -d "$wt" ] || { wt=/tmp/wt/$id; out=/tmp/wt/$id-out; base=/tmp/wt; }
+export CARGO_NET_OFFLINE=true CARGO_TARGET_DIR=$base/target
 cd $wt || exit 2
 run() { cargo test --workspace --offline --lib --bins 2>&1 | grep -E "^test result|FAILED|failed" | tr '\n' ' '; echo; }
+git checkout -- . ; git apply $out/patch.diff && git apply $out/demo.diff
 echo "[both applied]      $(run)"
-git apply -R $out/patch.diff && echo "[demo only]         $(run)"
-git apply $out/patch.diff
-git apply -R $out/demo.diff 2>/dev/null || git checkout -- . && git apply $out/patch.diff 2>/dev/null
+git checkout -- . ; git apply $out/demo.diff
+echo "[demo only]         $(run)"
+git checkout -- . ; git apply $out/patch.diff
 echo "[change only]       $(run)"
 git status --short | head -5
